@@ -55,8 +55,9 @@ func echoIn(nonce string, extra map[string]any) map[string]any {
 }
 
 type c06History struct {
-	name   string
-	groups func(tag string) [][]rig.ExecSpec
+	name         string
+	groups       func(tag string) [][]rig.ExecSpec
+	closeOverlap bool
 }
 
 func c06Histories() []c06History {
@@ -71,44 +72,69 @@ func c06Histories() []c06History {
 		return e
 	}
 	return []c06History{
-		{"one", func(t string) [][]rig.ExecSpec { return [][]rig.ExecSpec{{ex(t, "a", "echo", nil)}} }},
+		{"one", func(t string) [][]rig.ExecSpec { return [][]rig.ExecSpec{{ex(t, "a", "echo", nil)}} }, false},
 		{"serial3", func(t string) [][]rig.ExecSpec {
 			return [][]rig.ExecSpec{{ex(t, "a", "echo", nil)}, {ex(t, "b", "echo2", nil)}, {ex(t, "c", "echo", nil)}}
-		}},
+		}, false},
 		{"overlap2-then-1", func(t string) [][]rig.ExecSpec {
 			return [][]rig.ExecSpec{{ex(t, "a", "echo", nil), ex(t, "b", "echo2", nil)}, {ex(t, "c", "echo", nil)}}
-		}},
+		}, false},
 		{"overlap3", func(t string) [][]rig.ExecSpec {
 			return [][]rig.ExecSpec{{ex(t, "a", "echo", nil), ex(t, "b", "echo", nil), ex(t, "c", "sig", nil)}}
-		}},
+		}, false},
 		{"signals-serial", func(t string) [][]rig.ExecSpec {
 			return [][]rig.ExecSpec{{withSignals(ex(t, "a", "sig", nil), 2)}, {withSignals(ex(t, "b", "sig", nil), 1)}}
-		}},
+		}, false},
 		{"signals-overlap", func(t string) [][]rig.ExecSpec {
 			return [][]rig.ExecSpec{{withSignals(ex(t, "a", "sig", nil), 2), ex(t, "b", "echo", nil)}, {ex(t, "c", "echo", nil)}}
-		}},
+		}, false},
 		{"open-signal-channel", func(t string) [][]rig.ExecSpec {
 			// a signal channel that is passed but never used nor closed by the caller until Close
 			a := ex(t, "a", "sig", nil)
 			a.NoSigCh = false
 			return [][]rig.ExecSpec{{a}, {ex(t, "b", "echo", nil)}}
-		}},
+		}, false},
 		{"step-fatal-then-ok", func(t string) [][]rig.ExecSpec {
 			return [][]rig.ExecSpec{{ex(t, "a", "echo", map[string]any{"mode": "panic"})}, {ex(t, "b", "echo", map[string]any{"mode": "undeclared"})}, {ex(t, "c", "echo", nil)}}
-		}},
+		}, false},
 		{"errors-overlap", func(t string) [][]rig.ExecSpec {
 			return [][]rig.ExecSpec{{ex(t, "a", "echo", map[string]any{"mode": "badout"}), ex(t, "b", "echo", nil), ex(t, "c", "nosuchstep", nil)}, {ex(t, "d", "echo", map[string]any{"mode": "err"})}}
-		}},
+		}, false},
 		{"rejected-input-then-ok", func(t string) [][]rig.ExecSpec {
 			bad := rig.ExecSpec{RunID: t + "-a", StepID: "echo", Input: map[string]any{"n": "not a number"}, NoSigCh: true}
 			return [][]rig.ExecSpec{{bad}, {ex(t, "b", "echo", nil)}}
-		}},
+		}, false},
+		{"empty-step-id-overlap", func(t string) [][]rig.ExecSpec {
+			// the server answers an empty step ID with a step-fatal error that carries no run ID
+			return [][]rig.ExecSpec{{ex(t, "a", "", nil), ex(t, "b", "echo", map[string]any{"mode": "gated"})}, {ex(t, "c", "echo", nil)}}
+		}, false},
+		{"empty-step-id-then-slow", func(t string) [][]rig.ExecSpec {
+			return [][]rig.ExecSpec{{ex(t, "a", "", nil)}, {ex(t, "b", "echo", map[string]any{"mode": "gated"})}}
+		}, false},
+		{"slow-serial", func(t string) [][]rig.ExecSpec {
+			return [][]rig.ExecSpec{{ex(t, "a", "echo", map[string]any{"mode": "gated"})}, {ex(t, "b", "echo2", map[string]any{"mode": "gated"})}}
+		}, false},
+		{"slow-overlap", func(t string) [][]rig.ExecSpec {
+			return [][]rig.ExecSpec{{ex(t, "a", "echo", map[string]any{"mode": "gated"}), ex(t, "b", "echo", nil)}, {ex(t, "c", "sig", map[string]any{"mode": "gated"})}}
+		}, false},
+		{"empty-step-id-serial", func(t string) [][]rig.ExecSpec {
+			return [][]rig.ExecSpec{{ex(t, "a", "", nil)}, {ex(t, "b", "echo", nil)}}
+		}, false},
+		{"close-overlaps-2-slow", func(t string) [][]rig.ExecSpec {
+			return [][]rig.ExecSpec{{ex(t, "a", "echo", nil)}, {ex(t, "b", "echo", map[string]any{"mode": "gated"}), ex(t, "c", "echo2", map[string]any{"mode": "gated"})}}
+		}, true},
+		{"close-overlaps-3-mixed", func(t string) [][]rig.ExecSpec {
+			return [][]rig.ExecSpec{{withSignals(ex(t, "a", "sig", map[string]any{"mode": "gated"}), 1), ex(t, "b", "echo", map[string]any{"mode": "panic"}), ex(t, "c", "echo", map[string]any{"mode": "gated"})}}
+		}, true},
+		{"close-overlaps-1-fast", func(t string) [][]rig.ExecSpec {
+			return [][]rig.ExecSpec{{ex(t, "a", "echo", nil)}}
+		}, true},
 	}
 }
 
 // c06Judge turns a session result into violations of C06.
 func c06Judge(c *wk.Ctx, prop string, h string, spec rig.SessionSpec, res *rig.SessionResult, points map[int]yieldPoint) bool {
-	wit := map[string]any{"history": h, "schedule": spec.Sched, "schedule_text": describePause(points, spec.Sched), "lifo": spec.Lifo,
+	wit := map[string]any{"history": h, "schedule": spec.Sched, "schedule_text": describePause(points, spec.Sched), "lifo": spec.Lifo, "pauses_first": spec.PausesFirst,
 		"transport": fmt.Sprintf("c2s=%s s2c=%s", spec.C2S, spec.S2C), "chunk_seed": spec.ChunkSeed}
 	switch res.Monitor.Outcome {
 	case "inconclusive":
@@ -210,7 +236,7 @@ func runC06(c *wk.Ctx) {
 	for hi, h := range hist {
 		set := map[pa]bool{}
 		for rep := 0; rep < 3; rep++ {
-			res := rig.RunSession(rig.SessionSpec{C2S: modes[rep%2].c2s, S2C: modes[rep%2].s2c, ChunkSeed: uint64(rep + 1), Groups: h.groups(fmt.Sprintf("base%d", rep))})
+			res := rig.RunSession(rig.SessionSpec{C2S: modes[rep%2].c2s, S2C: modes[rep%2].s2c, ChunkSeed: uint64(rep + 1), Groups: h.groups(fmt.Sprintf("base%d", rep)), CloseOverlap: h.closeOverlap})
 			if res.Monitor.Outcome != "done" {
 				// the unperturbed history itself does not complete: judged as a case below (schedule empty)
 				continue
@@ -234,15 +260,18 @@ func runC06(c *wk.Ctx) {
 	}
 	// Case space: per history: 1 (no pause) + singles + npairs sampled pairs.
 	npairs := int(c.N(250, 12000))
-	type caseRef struct{ h, kind, k int }
+	type caseRef struct {
+		h, kind, k int
+		pf         int // 0/1: slow steps first / paused goroutines first; -1: random
+	}
 	var cases []caseRef
 	for hi := range hist {
-		cases = append(cases, caseRef{hi, 0, 0})
+		cases = append(cases, caseRef{hi, 0, 0, 0})
 		for k := range singles[hi] {
-			cases = append(cases, caseRef{hi, 1, k})
+			cases = append(cases, caseRef{hi, 1, k, 0}, caseRef{hi, 1, k, 1})
 		}
 		for k := 0; k < npairs; k++ {
-			cases = append(cases, caseRef{hi, 2, k})
+			cases = append(cases, caseRef{hi, 2, k, -1})
 		}
 	}
 	c.Floor("sessions", 50)
@@ -265,7 +294,10 @@ func runC06(c *wk.Ctx) {
 			}
 		}
 		m := modes[r.Intn(len(modes))]
-		spec := rig.SessionSpec{C2S: m.c2s, S2C: m.s2c, ChunkSeed: r.U64(), Groups: h.groups(fmt.Sprintf("c%d", idx)), Sched: sched, Lifo: r.Bool()}
+		spec := rig.SessionSpec{C2S: m.c2s, S2C: m.s2c, ChunkSeed: r.U64(), Groups: h.groups(fmt.Sprintf("c%d", idx)), Sched: sched, Lifo: r.Bool(), CloseOverlap: h.closeOverlap, PausesFirst: r.Bool()}
+		if cr.pf >= 0 {
+			spec.PausesFirst = cr.pf == 1
+		}
 		if replay != nil {
 			if b, err := json.Marshal(replay["schedule"]); err == nil {
 				var s2 []pa
@@ -275,6 +307,9 @@ func runC06(c *wk.Ctx) {
 			}
 			if l, ok := replay["lifo"].(bool); ok {
 				spec.Lifo = l
+			}
+			if l, ok := replay["pauses_first"].(bool); ok {
+				spec.PausesFirst = l
 			}
 		}
 		c.Note(fmt.Sprintf("history=%s sched=%v", h.name, spec.Sched))
